@@ -193,7 +193,7 @@ func Exec(st *State, listen bool) (o Obs) {
 	o.Alive = w.Alive()
 	o.Living = sim.WarriorLivingCount()
 	o.Cycles = sim.CycleCount()
-	if TwoSteps && !listen && len(o.Queue) > 0 {
+	if TwoSteps && !listen && len(o.Queue) > 0 && st.M < 1<<20 {
 		sim.RunCycle()
 		o.Core2 = make([]g.Instruction, st.M)
 		for a := uint64(0); a < st.M; a++ {
